@@ -270,6 +270,9 @@ class C14(LoopProp):
                 nfull = rng.choice([0, 1, ow - 1, ow, ow + 1, 2 * ow])
                 lens = [ob] * max(0, nfull) + ([rng.choice([0, 1, ob - 1])] if rng.random() < 0.8 else [])
                 L.append("cli d %d %d %d %d %s - %s %s" % (b, w, t, clean, hx(name), reply, ",".join(map(str, lens)) or "-"))
+        # directed: the client retransmits after ITS negotiated timeout (real time, 1 s): the peer acknowledges the options and falls silent
+        for (b, w) in [(512, 1), (8, 3)]:
+            L.append("cli u %d %d 1 1 %s gen:%d:7 oack:blksize:%d,windowsize:%d,timeout:1 R" % (b, w, hx("f.bin"), 2 * w * b + 5, b, w))
         return L
 
     def cli_oracle(self, line, impl):
@@ -288,6 +291,10 @@ class C14(LoopProp):
             return ("the client's request is not %s of %s with blksize, windowsize, timeout, tsize in this order and these values" % (
                 "WRQ" if upload else "RRQ", (name.split(b"/")[-1] if upload else name).decode()), "cli-request")
         reply = t[8]
+        if upload and t[9] == "R":
+            last = o["conv"].split(" ")[-1]
+            if not last.startswith("R") or int(last[1:]) == 0:
+                return ("the client does not send its window again within the timeout it negotiated (%d s) while the peer is silent" % tm, "cli-retransmission-interval")
         if reply.startswith("err:"):
             if o["res"] != "err":
                 return ("the server's ERROR is not reported by the client", "cli-error-not-reported")
